@@ -101,10 +101,34 @@ async def check_case(ctx, case):
             rcs += [k for k in G.keys_of(cond, "rc") if k not in rcs]
             fcs += [k for k in G.keys_of(cond, "fc") if k not in fcs]
     asgs = case.get("assignments") or H.assignments_for(rcs, rng, full_up_to=3, sample=20)
-    for asg in asgs:
+    hint_keys = []
+    for _ind, cond in parts:
+        if cond is not None:
+            hint_keys += [k for k in G.keys_of(cond, "hint") if k not in hint_keys]
+    for n_asg, asg in enumerate(asgs):
         fa = case.get("fa") or {k: rng.random() < 0.5 for k in fcs}
         wcase = dict(case, assignments=[asg], fa=fa)
-        world = E.World("c09", rc=asg, fc=fa, fc_msg={k: f"E{k}" for k in fcs} if rng.random() < 0.5 else None)
+        explicit = rng.random() < 0.5 or n_asg == 0
+        world = E.World("c09", rc=asg, fc=fa, fc_msg={k: f"E{k}" for k in fcs} if explicit else None, hints={k: E.hint_text(k, "c09") for k in hint_keys})
+        if n_asg == 0:
+            # the library's own ready-made evaluators must give the same result as the harness evaluators for the same content evaluation result
+            cer = E.make_cer(asg, fa, world.hints, fc_msg=world.fc_msg)
+
+            async def reference_run():
+                E.set_world(world)
+                text_to_be_evaluated_by_format_constraint.set("text")
+                return await evaluate_ahb_expression_tree(rout[1])
+
+            ref_out = await sched.run_under(None, reference_run)
+            for mode in ("hardcoded", "cer"):
+                ctx.evaluation()
+                ctx.count("evaluations_with_shipped_evaluators")
+                shipped = await H.with_shipped_evaluators(mode, cer, lambda: evaluate_ahb_expression_tree(rout[1]))
+                a = repr(ref_out[1]) if ref_out[0] == "ok" else "raises " + type(ref_out[1]).__name__
+                b = repr(shipped[1]) if shipped[0] == "ok" else "raises " + type(shipped[1]).__name__ + ": " + str(shipped[1])[:120]
+                if a != b:
+                    ctx.violation("shipped-evaluators-differ", f"{s!r} under {asg}/{fa}: with the {mode} evaluators of evaluator_factory the result is {b[:400]}; with equivalent user evaluators it is {a[:400]}", case=wcase)
+                    return
         # expected part
         outcomes = []
         for ind, cond in parts:
